@@ -21,8 +21,15 @@ from pyvc.seqs import LRef, SSeq
 from pyvc.values import cur, mk_bool, mk_int
 
 UT = "urwid/util.py:"
+
+
+def forall(lo, hi, fn):  # noqa: F811 - no "is the range empty" solver query (see pyvc.values.forall)
+    return V.forall(lo, hi, fn, check_empty=False)
+
+
 ATTR = Opt(Opaque("Attr"))
 RMAX = 2**30
+QBT = 250  # feasibility checks at branches: the path conditions carry quantified facts; `unknown` keeps the branch (sound)
 
 
 def RUNS(lo=0, attr=ATTR):
@@ -153,7 +160,10 @@ class rle_get_at:
         yield "attribute-at-that-position", implies(inside, aeq(result, at(a.rle, a.pos)))
         yield "operand-unchanged", unchanged(a, "rle")
 
-    loops = {0: Loop(invariant=lambda v: both(v.x == RP(v.rle, v.i_), v.x <= v.pos, v.pos >= 0, link(v.rle, v.i_)))}
+    def requires(a):
+        return all_runs_at_least(a.rle, 0)
+
+    loops = {0: Loop(invariant=lambda v: both(v.x == RP(v.rle, v.i_), v.x <= v.pos, v.pos >= 0, link(v.rle, v.i_), rp_mono(v.rle, v.i_ + 1, n_runs(v.rle), 0)))}
 
 
 # ------------------------------------------------------------------------------------------------ append / prepend
@@ -223,14 +233,14 @@ class rle_prepend_modify:
         if merged:
             yield "merged-into-the-first-run", both(n_runs(new) == n, aeq(run_at(new, 0)[0], at_), run_at(new, 0)[1] == run_at(old, 0)[1] + r, same_runs(new, old, 1, n))
         else:
-            yield "prepended-as-a-new-run", both(n_runs(new) == n + 1, aeq(run_at(new, 0)[0], at_), run_at(new, 0)[1] == r, same_runs(new, old, 0, n, shift=1))
+            yield "prepended-as-a-new-run", both(n_runs(new) == n + 1, aeq(run_at(new, 0)[0], at_), run_at(new, 0)[1] == r, same_runs(new, old, 0, n, shift=1) if n_runs(new) != 1 else True)
         yield from _keeps_bounds(new, old, r)
 
 
 # ------------------------------------------------------------------------------------------------ rle_join_modify
 
 
-@contract(UT + "rle_join_modify", property=("C02", "C17"), replayable=False)
+@contract(UT + "rle_join_modify", property=("C02", "C17"), replayable=False, branch_timeout_ms=QBT, cover_timeout_ms=3000)
 class rle_join_modify:
     """Precondition (from the call sites): `rle` and `rle2` are two distinct list objects."""
 
@@ -279,7 +289,7 @@ def _subseg_inv(v):
     yield "expansion", forall(0, P, lambda p: aeq(at(sub, p), at(r, s0 + p)))
 
 
-@contract(UT + "rle_subseg", property=("C02", "C17"), replayable=False)
+@contract(UT + "rle_subseg", property=("C02", "C17"), replayable=False, branch_timeout_ms=QBT, cover_timeout_ms=3000)
 class rle_subseg:
     """Zero-length runs in the input: a zero-length run met after the skipping is over is copied into the result
     as a zero-length run, one met while skipping is dropped; the expansion is the same either way, but the clause
@@ -328,7 +338,7 @@ def _product_inv(v):
     yield "no-zero-length-run", all_runs_at_least(res, 1)
 
 
-@contract(UT + "rle_product", property=("C02", "C17"), replayable=False)
+@contract(UT + "rle_product", property=("C02", "C17"), replayable=False, branch_timeout_ms=QBT, cover_timeout_ms=3000)
 class rle_product:
     """Zero-length runs in the inputs: the loop `while r1 and r2` stops at the first zero-length run it loads,
     so the product is cut short there (rle_product([(a,0),(b,2)], [(c,2)]) == []); negative runs never terminate.
@@ -340,6 +350,11 @@ class rle_product:
 
     def requires(a):
         return both(all_runs_at_least(a.rle1, 1), all_runs_at_least(a.rle2, 1))
+
+    def setup(st, self_obj, vals):
+        # totals are non-negative (lemma instance; needed on the early exit for an empty operand)
+        for k in ("rle1", "rle2"):
+            rp_mono(vals[k], 0, n_runs(vals[k]), 1)
 
     def ensures(a, result):
         r1, r2 = a.rle1, a.rle2
@@ -362,7 +377,7 @@ def _factor_inv(v):
         yield f"runs-at-least-{lo}", implies(all_runs_at_least(r, lo), both(all_runs_at_least(f1, lo), all_runs_at_least(f2, lo)))
 
 
-@contract(UT + "rle_factor", property=("C02", "C17"), replayable=False)
+@contract(UT + "rle_factor", property=("C02", "C17"), replayable=False, branch_timeout_ms=QBT, cover_timeout_ms=3000)
 class rle_factor:
     """Inverse of rle_product in the expansion view: with rle = rle_product(a, b) the two results expand to a and b
     over the product's length (compose `expansion-is-the-pair-of-expansions` with the two clauses here)."""
